@@ -75,6 +75,8 @@ META = (META[0] + ' FUNCPASS (a functor overload hands its functor to every orde
 
 META = (META[0] + ' DISTGUARD; IT1n also covers range ends formed from the count.', META[1])
 
+META = (META[0] + ' SELFMOVE (no algorithm move-assigns an element onto itself).', META[1])
+
 
 def run(chk, tier):
     db = D.load("checks")
@@ -90,6 +92,8 @@ def run(chk, tier):
     from ..rules import extra8 as _X8
     _X8.dist_guard_area(chk, db, ['_algorithm/', '_numeric/'])      # DISTGUARD
     _X8.positive_controls(chk, D, ('DISTGUARD',))
+    if _X8.self_move_area(chk, db, ['_algorithm/']) < 3:      # SELFMOVE
+        chk.analysis_broken('SELFMOVE: fewer than 3 algorithms that move-assign through two cursors (floor 3)')
     if _ITX.rstep_area(chk, db, ['_algorithm/', '_numeric/', '_memory/']) < 5:      # RSTEP
         chk.analysis_broken("RSTEP: fewer than 5 downward scans (floor 5)")
     nsr = 0
